@@ -5,10 +5,8 @@ from .c01 import fix_disagreements
 
 MODULES = ['DsdVerif.Props.C10']
 GEN_FILES = []
-THEOREM_NAMES = ['lexLt_strictTotal', 'strLt_strictTotal', 'ckeyLt_strictTotal', 'mkeyLt_strictTotal', 'memLt_strictTotal',
-                 'rkeyLt_strictTotal_on_typed', 'le_total', 'le_trans', 'lt_iff_le_not_le', 'le_antisymm', 'dom_eq_hash',
-                 'sortBy_perm', 'sortBy_sorted', 'sortBy_perm_invariant']
-THEOREMS = []
+THEOREM_NAMES = ['lexLt_strictTotal', 'strLt_strictTotal', 'ckeyLt_strictTotal', 'mkeyLt_strictTotal', 'memLt_strictTotal', 'rkeyLt_strictTotal_on_typed', 'le_total', 'le_trans', 'lt_iff_le_not_le', 'le_antisymm', 'dom_eq_hash', 'sortBy_perm', 'sortBy_sorted', 'sortBy_perm_invariant']
+THEOREMS = ['Dsd.C11.' + t for t in THEOREM_NAMES]
 ASSUMPTIONS = [
     'the comparison operators of the five classes are functions of the canonical forms; they are modelled by strict orders on the keys '
     '(Model/Objects.lean: strLt, ckeyLt, mkeyLt, memLt, rkeyLt, leOf) and tied to __eq__/__lt__/__le__/__hash__ by the `cmp` stream',
